@@ -38,8 +38,12 @@ Proof.
   intros. unfold io_write. destruct (N.eqb (lenN bs) 0); [reflexivity|].
   destruct (next_ev w) as [[k amt] rest].
   destruct (N.eqb k 1); [reflexivity|]. destruct (N.eqb k 2); [reflexivity|]. destruct (N.eqb k 3); [reflexivity|].
-  cbn [fst]. unfold broker_feed. destruct (N.eqb (w_broker _) 0); [reflexivity|].
-  destruct (broker_split _ _ _ _) as [r rest']. destruct r; reflexivity.
+  assert (G : forall x a, w_live (broker_feed x a) = w_live x).
+  { intros x a. unfold broker_feed. destruct (N.eqb (w_broker _) 0); [reflexivity|].
+    destruct (broker_split _ _ _ _) as [r rest']. destruct r; reflexivity. }
+  destruct (N.eqb k 4); [unfold slow_write; cbn [fst]; rewrite G; reflexivity|].
+  destruct (N.eqb k 5); [unfold slow_write; cbn [fst]; rewrite G; reflexivity|].
+  cbn [fst]. rewrite G. reflexivity.
 Qed.
 Lemma io_flush_live : forall w, w_live (fst (io_flush w)) = w_live w.
 Proof. intros. unfold io_flush. destruct (next_ev w) as [[k amt] rest]. destruct (N.eqb k 1); [reflexivity|]. destruct (N.eqb k 3); reflexivity. Qed.
